@@ -26,13 +26,13 @@ COMMON_ASSUMPTIONS = [
 
 def P(level, quick_s, thorough_s, rule, assumptions=None, variant="asan", sanitizers=ASAN, expect_probes=None, phases=None):
     if phases is None and variant == "asan":
-        # second compiler: a tenth of the budget replays the first run indexes (the same plans) on the native g++ -O2 build
+        # second compiler: a tenth of the budget runs the first run indexes on the native g++ -O2 build
         # of the same sources - what production is compiled like. No sanitizer there; the oracles, signals and the
         # watchdog decide. Compiler-dependent behaviour (argument evaluation order, optimisations that exploit undefined
         # behaviour) is otherwise only ever seen through clang -O1.
         phases = [{"tag": "asan", "bin": "simcheck", "wrap": [], "share": 0.9, "shrink": 400},
                   {"tag": "gcc-O2", "variant": "plain", "bin": "simcheck", "wrap": [], "share": 0.1, "shrink": 200}]
-        sanitizers = sanitizers + "; phase gcc-O2 (10 % of the budget): the same plans on a native g++ -O2 build without sanitizers"
+        sanitizers = sanitizers + "; phase gcc-O2 (10 % of the budget): the same run indexes on a native g++ -O2 build without sanitizers"
     return {
         "phases": phases,
         "level": level,
